@@ -257,7 +257,7 @@ def gen_cases(ctx, Gf):
 
     ints = lambda: rng.randint(-6, 6)
     # 1. small integer structures, every layout, dyadic / equal masses
-    for _ in range(ctx.scale(120, 3000)):
+    for _ in range(ctx.scale(120, 1500)):
         n = rng.randint(2, 7)
         lo, hi = layout(rng, n, rng.choice(LAYOUTS), ints)
         w = rng.choice([None, dyadic_masses(rng, n, rng.choice([2, 3, 4, 8]) if n <= 4 else 8)])
@@ -265,7 +265,7 @@ def gen_cases(ctx, Gf):
             w = dyadic_masses(rng, n, 8)
         family("grid-int", lo, hi, w)
     # 2. cumulated masses exactly on grid levels
-    for _ in range(ctx.scale(120, 3000)):
+    for _ in range(ctx.scale(120, 1500)):
         n = rng.randint(2, 8)
         w = hit_masses(rng, n, Gf)
         if w is None:
@@ -281,7 +281,7 @@ def gen_cases(ctx, Gf):
             lo, hi = layout(rng, n, "overlapping", lambda: rng.randint(-40, 40))
         family("grid-hit", lo, hi, w)
     # 3. random doubles, 2..50 focal elements
-    for _ in range(ctx.scale(150, 5000)):
+    for _ in range(ctx.scale(150, 2000)):
         n = rng.choice([2, 3, 5, 8, 13, 21, 34, 50, rng.randint(2, 50)])
         sc = 10 ** rng.uniform(-3, 4)
         lo, hi = layout(rng, n, rng.choice(LAYOUTS), lambda: rng.uniform(-1, 1) * sc)
